@@ -67,6 +67,80 @@ theorem exec_set {vs : List V} {n pc : Nat} {s : List V} {w : W} (h : vs.length 
   have hl : n ≤ (vs.reverse ++ s).length := by simp; omega
   simp only [exec, hl, if_true, h1, h2]
 
+/-- the name/value pairs as they lie on the stack, deepest first -/
+def flat : List (V × V) → List V
+  | [] => []
+  | (k, v) :: r => k :: v :: flat r
+
+theorem flat_length : (kvs : List (V × V)) → (flat kvs).length = 2 * kvs.length
+  | [] => rfl
+  | (k, v) :: r => by simp [flat, flat_length r]; omega
+
+theorem pairs_flat : (kvs : List (V × V)) → pairs (flat kvs) = kvs
+  | [] => rfl
+  | (k, v) :: r => by simp [flat, pairs, pairs_flat r]
+
+theorem take_app_len {l r : List V} {n : Nat} (h : l.length = n) :
+    (l ++ r).take n = l ∧ (l ++ r).drop n = r := by
+  subst h; exact ⟨List.take_left' rfl, List.drop_left' rfl⟩
+
+theorem exec_mkfn {dvs : List V} {kvs : List (V × V)} {np nk pc : Nat} {q c : V} {s : List V} {w : W}
+    (h1 : dvs.length = np) (h2 : kvs.length = nk) :
+    exec P (.MAKE_FUNCTION np nk) pc (q :: c :: ((flat kvs).reverse ++ (dvs.reverse ++ s))) w
+      = push pc s (P.mkFunction c q dvs kvs w) := by
+  have hk : (flat kvs).reverse.length = 2 * nk := by simp [flat_length, h2]
+  have hd : dvs.reverse.length = np := by simp [h1]
+  obtain ⟨t1, d1⟩ := take_app_len (r := dvs.reverse ++ s) hk
+  obtain ⟨t2, d2⟩ := take_app_len (r := s) hd
+  have hl : 2 * nk + np ≤ ((flat kvs).reverse ++ (dvs.reverse ++ s)).length := by
+    simp [flat_length, h1, h2] <;> omega
+  simp only [exec, hl, if_true, t1, d1, t2, d2, List.reverse_reverse, pairs_flat]
+
+theorem evalKWs_length : (kws : KWs) → ∀ {w : W} {kvs : List (V × V)} {w' : W},
+    evalKWs P kws w = .ok kvs w' → kvs.length = kws.length
+  | .nil, w, kvs, w', h => by
+    simp only [evalKWs, M.pure] at h; cases h; rfl
+  | .cons n e rest, w, kvs, w', h => by
+    simp only [evalKWs, M.bind, M.pure] at h
+    cases he : evalE P e w with
+    | err x w1 => simp [he] at h
+    | ok v w1 =>
+      simp only [he] at h
+      cases hes : evalKWs P rest w1 with
+      | err x w2 => simp [hes] at h
+      | ok vs' w2 =>
+        simp only [hes] at h
+        cases h
+        simp [KWs.length, evalKWs_length rest hes]
+
+theorem evalOpt_isSome : (o : OptE) → ∀ {w : W} {ov : Option V} {w' : W},
+    evalOpt P o w = .ok ov w' → ov.isSome = o.isSome
+  | .none, w, ov, w', h => by
+    simp only [evalOpt, M.pure] at h; cases h; rfl
+  | .some e, w, ov, w', h => by
+    simp only [evalOpt, M.bind, M.pure] at h
+    cases he : evalE P e w with
+    | err x w1 => simp [he] at h
+    | ok v w1 => simp only [he] at h; cases h; rfl
+
+theorem popIf_toList (ov : Option V) (r : List V) : popIf ov.isSome (ov.toList ++ r) = some (ov, r) := by
+  cases ov <;> simp [popIf]
+
+theorem exec_callx {vs : List V} {ks : List (V × V)} {sv dv : Option V} {na nk pc : Nat} {f : V}
+    {s : List V} {w : W} {st ds : Bool}
+    (h1 : vs.length = na) (h2 : ks.length = nk) (h3 : sv.isSome = st) (h4 : dv.isSome = ds) :
+    exec P (.CALL_FUNCTION_EX na nk st ds) pc
+        (dv.toList ++ (sv.toList ++ ((flat ks).reverse ++ (vs.reverse ++ f :: s)))) w
+      = push pc s (P.callEx f vs ks sv dv w) := by
+  subst h3 h4
+  have hk : (flat ks).reverse.length = 2 * nk := by simp [flat_length, h2]
+  have hd : vs.reverse.length = na := by simp [h1]
+  obtain ⟨t1, d1⟩ := take_app_len (r := vs.reverse ++ f :: s) hk
+  obtain ⟨t2, d2⟩ := take_app_len (r := f :: s) hd
+  have hl : 2 * nk + na + 1 ≤ ((flat ks).reverse ++ (vs.reverse ++ f :: s)).length := by
+    simp [flat_length, h1, h2]; omega
+  simp only [exec, popIf_toList, hl, if_true, t1, d1, t2, d2, List.reverse_reverse, pairs_flat]
+
 mutual
 theorem simE (e : Expr) (code : List Instr) (pc : Nat) (s : List V) (w : W)
     (hc : CodeAt code pc (compE e pc)) :
@@ -251,14 +325,60 @@ theorem simE (e : Expr) (code : List Instr) (pc : Nat) (s : List V) (w : W)
     intro d w1 _
     exact Sim.congr_k P (simKVs kvs code (pc + 1) s d w1 hk)
       (by intro v; simp only [Prod.mk.injEq, and_true]; omega)
-  | lambda0 body =>
+  | lambda sg ds kds body =>
     simp only [compE] at hc
-    obtain ⟨h0, hc⟩ := hc.cons
-    obtain ⟨h1, hc⟩ := hc.cons
-    obtain ⟨h2, _⟩ := hc.cons
+    obtain ⟨h1, h3⟩ := hc.split (n := sizes ds + sizeKWs kds) (by simp [length_compEs, length_compKWs])
+    obtain ⟨hds, hkds⟩ := h1.split (length_compEs ds pc)
+    obtain ⟨h0, h3⟩ := h3.cons
+    obtain ⟨hq, h3⟩ := h3.cons
+    obtain ⟨hm, _⟩ := h3.cons
     simp only [evalE, size]
-    refine Sim.star_left P (Star.trans P (Star.instr P h0 rfl) (Star.instr P h1 rfl)) ?_
-    exact Sim.push P h2 rfl rfl
+    refine Sim.bind P (simEs ds code pc s w hds) ?_
+    intro dvs w1 hdvs
+    refine Sim.bind P (simKWs kds code _ _ w1 hkds) ?_
+    intro kvs w2 hkvs
+    refine Sim.star_left P (Star.trans P (Star.instr P (idx_at h0 (by omega)) rfl)
+      (Star.instr P (idx_at hq (by omega)) rfl)) ?_
+    exact Sim.push P (idx_at hm (by omega))
+      (exec_mkfn P (evalEs_length P ds hdvs) (evalKWs_length P kds hkvs)) (by simp only []; omega)
+  | slice3 lo hi st =>
+    simp only [compE] at hc
+    obtain ⟨h1, hb⟩ := hc.split (n := size lo + size hi + size st) (by simp [length_compE] <;> omega)
+    obtain ⟨h2, hst⟩ := h1.split (n := size lo + size hi) (by simp [length_compE])
+    obtain ⟨hlo, hhi⟩ := h2.split (length_compE lo pc)
+    simp only [evalE, size]
+    refine Sim.bind P (simE lo code pc s w hlo) ?_
+    intro vl w1 _
+    refine Sim.bind P (simE hi code _ _ w1 hhi) ?_
+    intro vh w2 _
+    refine Sim.bind P (simE st code (pc + size lo + size hi) _ w2 (hst.at (by omega))) ?_
+    intro vs w3 _
+    exact Sim.push P (hb.head' (by omega)) rfl (by simp only []; omega)
+  | callx f args kws star dstar =>
+    simp only [compE] at hc
+    obtain ⟨h1, hi⟩ := hc.split (n := size f + sizes args + sizeKWs kws + sizeOpt star + sizeOpt dstar)
+      (by simp [length_compE, length_compEs, length_compKWs, length_compOpt] <;> omega)
+    obtain ⟨h2, hds⟩ := h1.split (n := size f + sizes args + sizeKWs kws + sizeOpt star)
+      (by simp [length_compE, length_compEs, length_compKWs, length_compOpt] <;> omega)
+    obtain ⟨h3, hst⟩ := h2.split (n := size f + sizes args + sizeKWs kws)
+      (by simp [length_compE, length_compEs, length_compKWs] <;> omega)
+    obtain ⟨h4, hkw⟩ := h3.split (n := size f + sizes args) (by simp [length_compE, length_compEs])
+    obtain ⟨hf, hargs⟩ := h4.split (length_compE f pc)
+    simp only [evalE, size]
+    refine Sim.bind P (simE f code pc s w hf) ?_
+    intro vf w1 _
+    refine Sim.bind P (simEs args code _ _ w1 hargs) ?_
+    intro vs w2 hvs
+    refine Sim.bind P (simKWs kws code (pc + size f + sizes args) _ w2 (hkw.at (by omega))) ?_
+    intro ks w3 hks
+    refine Sim.bind P (simOpt star code (pc + size f + sizes args + sizeKWs kws) _ w3 (hst.at (by omega))) ?_
+    intro sv w4 hsv
+    refine Sim.bind P (simOpt dstar code (pc + size f + sizes args + sizeKWs kws + sizeOpt star) _ w4
+      (hds.at (by omega))) ?_
+    intro dv w5 hdv
+    exact Sim.push P (hi.head' (by omega))
+      (exec_callx P (evalEs_length P args hvs) (evalKWs_length P kws hks)
+        (evalOpt_isSome P star hsv) (evalOpt_isSome P dstar hdv)) (by simp only []; omega)
 theorem simEs (es : Exprs) (code : List Instr) (pc : Nat) (s : List V) (w : W)
     (hc : CodeAt code pc (compEs es pc)) :
     Sim P code pc s w (evalEs P es w) (fun vs => (pc + sizes es, vs.reverse ++ s)) := by
@@ -366,13 +486,43 @@ theorem simKVs (kvs : KVs) (code : List Instr) (pc : Nat) (s : List V) (d : V) (
     intro _ w3 _
     exact Sim.congr_k P (simKVs rest code (pc + size v + size k + 1) s d w3 (hrest.at (by omega)))
       (by intro r; simp only [sizeKVs, Prod.mk.injEq, and_true]; omega)
+theorem simKWs (kws : KWs) (code : List Instr) (pc : Nat) (s : List V) (w : W)
+    (hc : CodeAt code pc (compKWs kws pc)) :
+    Sim P code pc s w (evalKWs P kws w) (fun kvs => (pc + sizeKWs kws, (flat kvs).reverse ++ s)) := by
+  cases kws with
+  | nil => simp only [evalKWs]; exact Sim.pure P _ _ (by simp [sizeKWs, flat])
+  | cons n e rest =>
+    simp only [compKWs] at hc
+    obtain ⟨hn, hc⟩ := hc.cons
+    obtain ⟨he, hrest⟩ := hc.split (length_compE e (pc + 1))
+    simp only [evalKWs]
+    refine Sim.star_left P (Star.instr P hn rfl) ?_
+    refine Sim.bind P (simE e code (pc + 1) (P.const (.str n) :: s) w he) ?_
+    intro v w1 _
+    refine Sim.bind P (simKWs rest code (pc + 1 + size e) (v :: P.const (.str n) :: s) w1 hrest) ?_
+    intro r w2 _
+    exact Sim.pure P _ _ (by simp [sizeKWs, flat, Nat.add_assoc])
+theorem simOpt (o : OptE) (code : List Instr) (pc : Nat) (s : List V) (w : W)
+    (hc : CodeAt code pc (compOpt o pc)) :
+    Sim P code pc s w (evalOpt P o w) (fun ov => (pc + sizeOpt o, ov.toList ++ s)) := by
+  cases o with
+  | none => simp only [evalOpt]; exact Sim.pure P _ _ (by simp [sizeOpt])
+  | some e =>
+    simp only [compOpt] at hc
+    simp only [evalOpt]
+    refine Sim.bind P (simE e code pc s w hc) ?_
+    intro v w1 _
+    exact Sim.pure P _ _ (by simp [sizeOpt])
 end
 
 /-! ## assignment targets and statements -/
 
-/-- `UNPACK_SEQUENCE n` / `unpack n` deliver exactly `n` items when they succeed -/
+/-- `UNPACK_SEQUENCE n` / `unpack n` deliver exactly `n` items when they succeed, and
+`UNPACK_EX b a` / `unpackEx b a` exactly `b + 1 + a` (the middle one being the list) -/
 def UnpackLen : Prop :=
-  ∀ (n : Nat) (v : V) (w : W) (vs : List V) (w' : W), P.unpack n v w = .ok vs w' → vs.length = n
+  (∀ (n : Nat) (v : V) (w : W) (vs : List V) (w' : W), P.unpack n v w = .ok vs w' → vs.length = n) ∧
+  (∀ (b a : Nat) (v : V) (w : W) (vs : List V) (w' : W),
+    P.unpackEx b a v w = .ok vs w' → vs.length = b + 1 + a)
 
 mutual
 theorem simT (hU : UnpackLen P) (t : Target) (code : List Instr) (pc : Nat) (s : List V) (v : V)
@@ -410,8 +560,38 @@ theorem simT (hU : UnpackLen P) (t : Target) (code : List Instr) (pc : Nat) (s :
       | ok vs w' => simp [exec, h]
       | err x w' => simp [exec, h]
     · intro vs w1 hvs
-      exact Sim.congr_k P (simTs hU ts code (pc + 1) s vs w1 (hU _ _ _ _ _ hvs) hts)
+      exact Sim.congr_k P (simTs hU ts code (pc + 1) s vs w1 (hU.1 _ _ _ _ _ hvs) hts)
         (by intro _; simp only [Prod.mk.injEq, and_true]; omega)
+  | star b t a =>
+    simp only [compT] at hc
+    obtain ⟨hu, hrest⟩ := hc.cons
+    obtain ⟨hbt, ha⟩ := hrest.split (n := sizeTs b + sizeT t) (by simp [length_compTs, length_compT])
+    obtain ⟨hb, ht⟩ := hbt.split (length_compTs b (pc + 1))
+    simp only [assignTo, sizeT]
+    refine Sim.bind P (k1 := fun vs => (pc + 1, vs ++ s)) ?_ ?_
+    · apply Sim.instr P hu
+      cases h : P.unpackEx b.length a.length v w with
+      | ok vs w' => simp [exec, h]
+      | err x w' => simp [exec, h]
+    · intro vs w1 hvs
+      have hlen := hU.2 _ _ _ _ _ _ hvs
+      have hst : vs ++ s = vs.take b.length ++ (vs.drop b.length ++ s) := by
+        rw [← List.append_assoc, List.take_append_drop]
+      have hdl : (vs.drop b.length).length = 1 + a.length := by simp; omega
+      show Sim P code (pc + 1) (vs ++ s) w1 _ _
+      rw [hst]
+      generalize vs.drop b.length = tl at hdl
+      cases tl with
+      | nil => exact absurd hdl (by simp; omega)
+      | cons m rest =>
+        refine Sim.bind P (simTs hU b code (pc + 1) (m :: rest ++ s) (vs.take b.length) w1
+          (by simp; omega) hb) ?_
+        intro _ w2 _
+        refine Sim.bind P (simT hU t code (pc + 1 + sizeTs b) (rest ++ s) m w2 ht) ?_
+        intro _ w3 _
+        exact Sim.congr_k P (simTs hU a code (pc + 1 + sizeTs b + sizeT t) s rest w3
+            (by simp at hdl; omega) (ha.at (by omega)))
+          (by intro _; simp only [Prod.mk.injEq, and_true]; omega)
 theorem simTs (hU : UnpackLen P) (ts : Targets) (code : List Instr) (pc : Nat) (s : List V)
     (vs : List V) (w : W) (hlen : vs.length = ts.length) (hc : CodeAt code pc (compTs ts pc)) :
     Sim P code pc (vs ++ s) w (assignAll P ts vs w) (fun _ => (pc + sizeTs ts, s)) := by
@@ -432,6 +612,51 @@ theorem simTs (hU : UnpackLen P) (ts : Targets) (code : List Instr) (pc : Nat) (
       exact Sim.congr_k P (simTs hU ts code (pc + sizeT t) s vs w1
           (by simpa [Targets.length] using hlen) hts)
         (by intro _; simp only [sizeTs, Prod.mk.injEq, and_true]; omega)
+end
+
+mutual
+theorem simD (t : DelTarget) (code : List Instr) (pc : Nat) (s : List V) (w : W)
+    (hc : CodeAt code pc (compD t pc)) :
+    Sim P code pc s w (delTo P t w) (fun _ => (pc + sizeD t, s)) := by
+  cases t with
+  | name n =>
+    simp only [compD] at hc
+    simp only [delTo, sizeD]
+    exact Sim.done P hc.head rfl rfl
+  | subscr a i =>
+    simp only [compD] at hc
+    obtain ⟨hab, hi⟩ := hc.split (n := size a + size i) (by simp [length_compE] <;> omega)
+    obtain ⟨ha, hb⟩ := hab.split (length_compE a pc)
+    simp only [delTo, sizeD]
+    refine Sim.bind P (simE P a code pc _ w ha) ?_
+    intro va w1 _
+    refine Sim.bind P (simE P i code _ _ w1 hb) ?_
+    intro vi w2 _
+    exact Sim.done P (hi.head' (by omega)) rfl (by simp only []; omega)
+  | attr a n =>
+    simp only [compD] at hc
+    obtain ⟨ha, hi⟩ := hc.split (length_compE a pc)
+    simp only [delTo, sizeD]
+    refine Sim.bind P (simE P a code pc _ w ha) ?_
+    intro va w1 _
+    exact Sim.done P hi.head rfl rfl
+  | tuple ts =>
+    simp only [compD] at hc
+    simp only [delTo, sizeD]
+    exact simDs ts code pc s w hc
+theorem simDs (ts : DelTargets) (code : List Instr) (pc : Nat) (s : List V) (w : W)
+    (hc : CodeAt code pc (compDs ts pc)) :
+    Sim P code pc s w (delAll P ts w) (fun _ => (pc + sizeDs ts, s)) := by
+  cases ts with
+  | nil => simp only [delAll]; exact Sim.pure P _ _ (by simp [sizeDs])
+  | cons t ts =>
+    simp only [compDs] at hc
+    obtain ⟨ht, hts⟩ := hc.split (length_compD t pc)
+    simp only [delAll]
+    refine Sim.bind P (simD t code pc s w ht) ?_
+    intro _ w1 _
+    exact Sim.congr_k P (simDs ts code (pc + sizeD t) s w1 hts)
+      (by intro _; simp only [sizeDs, Prod.mk.injEq, and_true]; omega)
 end
 
 theorem simTargets (hU : UnpackLen P) : (more : Targets) → (t : Target) → (code : List Instr) →
@@ -557,6 +782,29 @@ theorem simS (hU : UnpackLen P) (st : Stmt) (code : List Instr) (pc : Nat) (s : 
         exact Star.refl _ _ _
       | _ => simp only [compS] at hc; simp only [execS, sizeS]; exact general hc
     | _ => simp only [compS] at hc; simp only [execS, sizeS]; exact general hc
+  | del ts =>
+    simp only [compS] at hc
+    simp only [execS, sizeS]
+    exact simDs P ts code pc s w hc
+  | funcdef name sg ds kds body =>
+    simp only [compS] at hc
+    obtain ⟨h1, h3⟩ := hc.split (n := sizes ds + sizeKWs kds) (by simp [length_compEs, length_compKWs])
+    obtain ⟨hds, hkds⟩ := h1.split (length_compEs ds pc)
+    obtain ⟨h0, h3⟩ := h3.cons
+    obtain ⟨hq, h3⟩ := h3.cons
+    obtain ⟨hm, h3⟩ := h3.cons
+    obtain ⟨hst, _⟩ := h3.cons
+    simp only [execS, sizeS]
+    refine Sim.bind P (simEs P ds code pc s w hds) ?_
+    intro dvs w1 hdvs
+    refine Sim.bind P (simKWs P kds code _ _ w1 hkds) ?_
+    intro kvs w2 hkvs
+    refine Sim.star_left P (Star.trans P (Star.instr P (idx_at h0 (by omega)) rfl)
+      (Star.instr P (idx_at hq (by omega)) rfl)) ?_
+    refine Sim.bind P (Sim.push P (idx_at hm (by omega))
+      (exec_mkfn P (evalEs_length P ds hdvs) (evalKWs_length P kds hkvs)) rfl) ?_
+    intro fn w3 _
+    exact Sim.done P (idx_at hst (by omega)) rfl (by simp only []; omega)
 
 theorem simStmts (hU : UnpackLen P) (ss : List Stmt) (code : List Instr) (pc : Nat) (s : List V)
     (w : W) (hc : CodeAt code pc (compStmts ss pc)) :
@@ -614,6 +862,45 @@ theorem run_of_raises {code : List Instr} {pc s w x w'}
   | some i =>
     simp only [hc, Option.map_some, Option.some.injEq] at hr
     simp only [run, hc, hr]
+
+/-! ## code objects of functions: names resolved for the function scope -/
+
+theorem exec_resolve (ps : List String) (i : Instr) (pc : Nat) (s : List V) (w : W) :
+    exec P (resolve ps i) pc s w = exec (P.inFunction ps) i pc s w := by
+  cases i with
+  | LOAD_NAME n =>
+    simp only [resolve]
+    by_cases h : ps.contains n = true
+    · have h' : n ∈ ps := by simpa using h
+      simp only [h, if_true]; simp [exec, Prims.inFunction, h']
+    · have h' : n ∉ ps := by simpa using h
+      simp only [h]; simp [exec, Prims.inFunction, h']
+  | BUILD_SLICE n =>
+    simp only [resolve]
+    rcases n with _ | _ | _ | _ | n <;> rcases s with _ | ⟨a, _ | ⟨b, _ | ⟨c, s⟩⟩⟩ <;> rfl
+  | _ =>
+    simp only [resolve]
+    rcases s with _ | ⟨a, _ | ⟨b, _ | ⟨c, s⟩⟩⟩ <;> rfl
+
+theorem run_map_resolve (ps : List String) (code : List Instr) (fuel pc : Nat) (s : List V) (w : W) :
+    run P (code.map (resolve ps)) fuel pc s w = run (P.inFunction ps) code fuel pc s w := by
+  induction fuel generalizing pc s w with
+  | zero => rfl
+  | succ n ih =>
+    simp only [run, List.getElem?_map]
+    cases hc : code[pc]? with
+    | none => rfl
+    | some i =>
+      simp only [Option.map_some, exec_resolve]
+      cases exec (P.inFunction ps) i pc s w with
+      | next pc' s' w' => exact ih pc' s' w'
+      | raise x w' => rfl
+      | ret v w' => rfl
+      | fault => rfl
+
+theorem compBody_eq (name : String) (sg : Sig) (body : Expr) :
+    compBody name sg body = (compE body 0 ++ [Instr.RETURN_VALUE]).map (resolve sg.names) := by
+  simp [compBody, resolve]
 
 end
 end GPy.C01
